@@ -275,9 +275,15 @@ class Out:
             # POST
             if alwaysS and val in '-+*/':  # calc, */ not really but do anyway
                 self.out.append(' ')
-            elif val in '+>~':  # enclose selector combinator
-                self.out.insert(-1, self.ser.prefs.selectorCombinatorSpacer)
-                self.out.append(self.ser.prefs.selectorCombinatorSpacer)
+            elif val in '+>~':
+                if type_ in ('adjacent-sibling', 'child', 'following-sibling', 'plus'):
+                    # enclose selector combinator (or + in :nth-child(2n + 1))
+                    combinatorSpacer = self.ser.prefs.selectorCombinatorSpacer
+                else:
+                    # simple CHAR, e.g. in unknown rule: ``1 + 2`` is not ``1+2``
+                    combinatorSpacer = ' '
+                self.out.insert(-1, combinatorSpacer)
+                self.out.append(combinatorSpacer)
             elif ')' == val and not keepS:  # CHAR funcend
                 # TODO: pref?
                 self.out.append(' ')
